@@ -24,16 +24,25 @@ class Top(Elaboratable):
         self.subs = list(subs.items()) if isinstance(subs, dict) else list(subs)
         self.extra = extra
         self.ctr = Signal(16)
+        self.rename = False        # set by simulate(): the DUTs live in a clock domain that is not called "sync"
 
     def elaborate(self, platform):
         m = Module()
         m.d.sync += self.ctr.eq(self.ctr + 1)
+        wrap = lambda sub: sub
+        if self.rename:
+            # what a SoC with several clock domains does with every peripheral: DomainRenamer. The renamed domain
+            # runs off the very same clock and reset, so cycle-accurate monitors are unaffected
+            from amaranth import ClockDomain, ClockSignal, ResetSignal, DomainRenamer
+            m.domains.vmon = cd = ClockDomain("vmon")
+            m.d.comb += [cd.clk.eq(ClockSignal("sync")), cd.rst.eq(ResetSignal("sync"))]
+            wrap = lambda sub: DomainRenamer("vmon")(sub)
         for i, item in enumerate(self.subs):
             if isinstance(item, tuple):
                 name, sub = item
-                m.submodules[name] = sub
+                m.submodules[name] = wrap(sub)
             else:
-                m.submodules[f"dut{i}"] = item
+                m.submodules[f"dut{i}"] = wrap(item)
         if self.extra is not None:
             self.extra(m)
         return m
@@ -100,7 +109,12 @@ def simulate(top, bench, mon=None):
     In a quarter of the cases (chosen deterministically from the case's stimulus seed) the design is
     elaborated once *before* the monitored simulation, so that the monitors also observe the hardware a
     component yields on its second elaboration (simulate-after-synthesise)."""
+    import os
     import zlib
+    if isinstance(top, Top) and (zlib.crc32(("dom:" + CURRENT_CASE_SEED).encode()) % 6 == 0 or os.environ.get("VMON_FORCE_RENAME")):
+        top.rename = True
+        if mon is not None:
+            mon.count("runs_in_a_renamed_clock_domain")
     if zlib.crc32(CURRENT_CASE_SEED.encode()) % 4 == 0:
         from amaranth.hdl import Fragment
         Fragment.get(top, None)
